@@ -127,15 +127,9 @@ theorem counts_render (l : Label) : Counts l.render := by
         simp [bodyHead, this]
       | some (.degsOnly _ _) => simp [bodyHead]
 
-theorem counts_append_newline {s : Str} (h : Counts s) : Counts (s ++ ['\n']) := by
-  obtain ⟨h1, h2, h3⟩ := h
-  exact ⟨by simpa [List.count_append] using h1, by simpa [List.count_append] using h2,
-    by simpa [List.count_append] using h3⟩
-
 theorem counts_of_reMatch {s : Str} (h : reMatch s = true) : Counts s := by
-  rcases (reMatch_iff s).1 h with ⟨l, rfl⟩ | ⟨l, rfl⟩
-  · exact counts_render l
-  · exact counts_append_newline (counts_render l)
+  obtain ⟨l, rfl⟩ := (reMatch_iff s).1 h
+  exact counts_render l
 
 theorem pySplit_total (s : Str) (r : Bool) :
     (∃ p, pySplit s r = .ok p ∧ (s ≠ Tables.noChord → p.1 <+: s)) ∨ pySplit s r = .error .invalidChord := by
